@@ -73,6 +73,16 @@ ExpandMisc(h) ==
                   \cup { <<0, Cmp(o, C1(f, dC), IntL(k))>> : o \in {"eq", "gt"},
                            <<f, k>> \in {<<"year", 2020>>, <<"month", 2>>, <<"day", 29>>, <<"hour", 10>>, <<"minute", 59>>} }
                   \cup { <<1, Bool("and", HB, HB)>>, <<1, Bool("or", HB, HB)>>, <<1, Un("not", HB)>> }
+ExpandMath(h) ==
+  CASE h = "B" -> { <<0, Cmp(o, C1(f, Hole("N")), IntL(k))>> : f \in {"round", "floor", "ceiling"}, o \in {"eq", "lt"}, k \in {-1, 0, 1, 2} }
+                  \cup { <<0, Cmp("eq", C1(f, HI), IntL(k))>> : f \in {"round", "floor", "ceiling"}, k \in {-2, 1} }
+                  \cup (IF Backend = "sqlite" THEN {} ELSE { <<0, Cmp(o, C1("second", dC), IntL(59))>> : o \in {"eq", "lt"} })
+                  \cup (IF Backend = "sqlalchemy" THEN {}
+                        ELSE { <<0, Cmp(o, C1("date", dC), Lit("Date", x))>> : o \in {"eq", "gt"}, x \in {"2020-02-29", "2019-12-31"} })
+                  \cup { <<1, Un("not", HB)>> } \cup { <<2, Bool("and", HB, HB)>> }
+    [] h = "N" -> { <<0, Bin(o, nC, ff)>> : o \in {"div", "mul", "add"}, ff \in {FL("2.0"), FL("0.5"), FL("-0.5")} }
+                  \cup { <<0, Bin("sub", FL("1.5"), nC)>>, <<0, Bin("div", mC, FL("2.0"))>> }
+    [] h = "I" -> { <<0, nC>>, <<0, mC>>, <<0, IntL(-2)>>, <<0, Bin("sub", nC, mC)>> }
 ExpandFns(h) ==
   CASE h = "B" -> { <<0, Cmp(o, HI, IntL(k))>> : o \in {"eq", "gt"}, k \in {1, 2020} }
                   \cup { <<0, Cmp("lt", HT, T1)>>, <<0, Cmp("eq", C1("date", HT), Lit("Date", "2020-02-29"))>>,
@@ -86,7 +96,7 @@ ExpandFns(h) ==
     [] h = "S" -> { <<0, sC>>, <<0, SL(<<97>>)>> }
                   \cup { <<1, C2("concat", HS, HS)>>, <<1, C1("trim", HS)>>, <<1, C2("substring", HS, HI)>>, <<1, C1("toupper", HS)>> }
     [] h = "T" -> { <<0, dC>>, <<0, T1>>, <<0, Call(Id0("now"), <<>>)>> }
-Expand(h) == CASE Profile = "logic" -> ExpandLogic(h) [] Profile = "fns" -> ExpandFns(h) [] Profile = "arith" -> ExpandArith(h)
+Expand(h) == CASE Profile = "logic" -> ExpandLogic(h) [] Profile = "fns" -> ExpandFns(h) [] Profile = "math" -> ExpandMath(h) [] Profile = "arith" -> ExpandArith(h)
                [] Profile = "strings" -> ExpandStrings(h) [] Profile = "misc" -> ExpandMisc(h)
 
 Init == t = HB /\ n = 0
@@ -108,16 +118,20 @@ Sat(x) == LET cols == RefCols(x) IN { tup \in Tuples(cols) : Eval(x, EnvOf(cols,
 \* mismatch of exactly that shape can be attributed to the corresponding known finding and any other cannot.
 \*   like_dynamic_meta    - a LIKE pattern taken from data keeps its wildcards and LIKE's ASCII case folding
 \*   concat_null_as_empty - concat treats NULL as the empty string (Django's Concat coalesces)
+\*   round_trunc_plus_half - round(x) computed as TRUNC(x + 0.5) (wrong for negative x)
 DevLike == INSTANCE Sem WITH Deviations <- {"like_dynamic_meta"}
 DevConcat == INSTANCE Sem WITH Deviations <- {"concat_null_as_empty"}
+DevRound == INSTANCE Sem WITH Deviations <- {"round_trunc_plus_half"}
 RECURSIVE HasDynPattern(_), HasCall(_, _)
 HasDynPattern(x) == \/ (x[1] = "Call" /\ x[2][3] \in {"contains", "startswith", "endswith"} /\ x[3][2][1] # "Lit")
                     \/ LET ks == Sub(x) IN \E i \in 1..Len(ks) : HasDynPattern(ks[i])
 HasCall(x, f) == (x[1] = "Call" /\ x[2][3] = f) \/ LET ks == Sub(x) IN \E i \in 1..Len(ks) : HasCall(ks[i], f)
 SatLike(x) == LET cols == RefCols(x) IN { tup \in Tuples(cols) : DevLike!Eval(x, EnvOf(cols, tup)) = TRUEV }
 SatConcat(x) == LET cols == RefCols(x) IN { tup \in Tuples(cols) : DevConcat!Eval(x, EnvOf(cols, tup)) = TRUEV }
+SatRound(x) == LET cols == RefCols(x) IN { tup \in Tuples(cols) : DevRound!Eval(x, EnvOf(cols, tup)) = TRUEV }
 DevField == (IF HasDynPattern(t) /\ SatLike(t) # Sat(t) THEN << <<"like_dynamic_meta", SatLike(t)>> >> ELSE <<>>)
          \o (IF HasCall(t, "concat") /\ SatConcat(t) # Sat(t) THEN << <<"concat_null_as_empty", SatConcat(t)>> >> ELSE <<>>)
+         \o (IF HasCall(t, "round") /\ SatRound(t) # Sat(t) THEN << <<"round_trunc_plus_half", SatRound(t)>> >> ELSE <<>>)
 
 Export == PrintT(ToJson(IF Complete
             THEN [k |-> "case", tree |-> t, nops |-> n, cols |-> RefCols(t), sat |-> Sat(t), satdev |-> DevField,
